@@ -17,6 +17,20 @@ Proof. reflexivity. Qed.
 Lemma blocked_sleep_cur tk s : blocked_sleep tk = Some s -> t_cur tk = Some (AwSleep s).
 Proof. unfold blocked_sleep. destruct (t_cur tk) as [[]|]; try discriminate. intros H; injection H as ->; reflexivity. Qed.
 
+Lemma q_add_alllive id d' p : (forall d es, In (d, es) p -> es <> []) ->
+  forall d es, In (d, es) (q_add id d' p) -> es <> [].
+Proof.
+  induction p as [|[t0 es0] r IH]; intros Ha d es Hin; cbn [q_add] in Hin.
+  - destruct Hin as [H|[]]. injection H as _ H2. rewrite <- H2. discriminate.
+  - destruct (d' <? t0).
+    + destruct Hin as [H|Hin]; [injection H as _ H2; rewrite <- H2; discriminate|exact (Ha d es Hin)].
+    + destruct (d' =? t0).
+      * destruct Hin as [H|Hin]; [|exact (Ha d es (or_intror Hin))]. injection H as _ H2. rewrite <- H2.
+        intros Hc. apply app_eq_nil in Hc. destruct Hc as [_ Hc]. discriminate.
+      * destruct Hin as [H|Hin]; [exact (Ha d es (or_introl H))|].
+        apply (IH (fun d1 es1 H1 => Ha d1 es1 (or_intror H1)) d es Hin).
+Qed.
+
 Section PollStep.
   Variables (ts0 ts : list task) (own : wakers) (nid : N) (dr : driver) (t m : N) (k : nat) (r : list nat).
   Variables (tk tk0 : task) (L : list N) (Sx : list step) (o : list N) (b : option (sleep * list step)) (n : N).
@@ -149,12 +163,48 @@ Section PollStep.
     destruct ps_cases as (_ & [(Eb & _)|(s & st & rest & Eb & _)]); rewrite Eb; cbn [fr_cur fr_steps]; intros [H1 H2]; discriminate.
   Qed.
 
+  Lemma ps_live : NwLive dr /\ AllLive dr -> NwLive dr' /\ AllLive dr'.
+  Proof.
+    intros [Hn Ha]. unfold dr'. destruct ps_cases as (_ & [(Eb & _)|(s & st & rest & Eb & _)]); rewrite Eb; cbn [fr_drv]; [split; assumption|].
+    split.
+    - intros w0 Hw. cbn [register set_pending next_wakeup pending] in *.
+      rewrite (ents_at_add _ _ _ _ (mid_sorted _ _ Hmid)). pose proof (Hn w0 Hw) as Hne.
+      destruct (w0 =? deadline s) eqn:E; [|exact Hne]. intros Hc. apply app_eq_nil in Hc. destruct Hc as [_ Hc]. discriminate.
+    - intros d es Hin. cbn [register set_pending pending] in Hin. exact (q_add_alllive _ _ _ Ha d es Hin).
+  Qed.
+
   Lemma ps_runnable k' : In k' r -> runnable ts t m k' -> runnable ts' t m k'.
   Proof.
     intros Hin (tk1 & H1 & H2). exists tk1. split; [|exact H2].
     rewrite ps_nth_other; [exact H1|]. intros ->. inversion Hnd; contradiction.
   Qed.
 End PollStep.
+
+(* ---- the work that is left: steps to go, plus one for a task that is still to be spawned ---- *)
+Definition wt (tk : task) : nat :=
+  (length (t_steps tk) + match t_cur tk, t_fin tk with None, false => 1 | _, _ => 0 end)%nat.
+
+Definition work (ts : list task) : nat := fold_right (fun tk n => (wt tk + n)%nat) 0%nat ts.
+
+Lemma work_set_nth ts : forall k tk tk', nth_error ts k = Some tk ->
+  (work (set_nth k tk' ts) + wt tk = work ts + wt tk')%nat.
+Proof.
+  induction ts as [|a r IH]; intros k tk tk' Hk; [destruct k; discriminate|].
+  destruct k as [|k]; cbn [nth_error set_nth work fold_right] in *.
+  - injection Hk as ->. fold (work r). lia.
+  - fold (work r) in *. fold (work (set_nth k tk' r)). pose proof (IH k tk tk' Hk). lia.
+Qed.
+
+Lemma frag_run_len now steps : forall nid, (length (fr_steps (snd (fst (frag_run now nid steps)))) <= length steps)%nat.
+Proof.
+  induction steps as [|st r IH]; intros nid; cbn [frag_run]; [cbn; lia|].
+  destruct st; cbn [fst snd fr_steps length]; try lia.
+  - destruct (now <? dl_of now (SSleep d)); cbn [fst snd fr_steps length]; [lia|].
+    specialize (IH (nid + 1)). destruct (frag_run now (nid + 1) r) as [[o b] n]. cbn [fst snd] in *. lia.
+  - destruct (now <? dl_of now (SSleepUntil t)); cbn [fst snd fr_steps length]; [lia|].
+    specialize (IH (nid + 1)). destruct (frag_run now (nid + 1) r) as [[o b] n]. cbn [fst snd] in *. lia.
+  - specialize (IH nid). destruct (frag_run now nid r) as [[o b] n]. cbn [fst snd] in *. lia.
+Qed.
 
 (* ---- inside an event of module m at instant t, with [q] still to be polled ---- *)
 Record MInv (ts0 : list task) (t m : N) (q : list nat) (w : world) : Prop := {
@@ -163,7 +213,8 @@ Record MInv (ts0 : list task) (t m : N) (q : list nat) (w : world) : Prop := {
   mi_nodup : NoDup q;
   mi_run : forall k, In k q -> runnable (w_tasks w) t m k;
   mi_mid : Mid t (drv_of w m);
-  mi_tie : Tie (w_tasks w) (w_owner w) (w_nid w) q m (drv_of w m) }.
+  mi_tie : Tie (w_tasks w) (w_owner w) (w_nid w) q m (drv_of w m);
+  mi_live : NwLive (drv_of w m) /\ AllLive (drv_of w m) }.
 
 Lemma poll_task_eq wfix now m k w tk steps cur iv dr nid lg sw mail :
   nth_error (w_tasks w) k = Some tk -> t_fin tk = false ->
@@ -208,27 +259,30 @@ Lemma poll_task_minv ts0 t m k r w : MInv ts0 t m (k :: r) w ->
   (forall m', (m' =? 0) <> (m =? 0) -> drv_of w' m' = drv_of w m') /\
   (forall k', k' <> k -> nth_error (w_tasks w') k' = nth_error (w_tasks w) k') /\
   length (w_tasks w') = length (w_tasks w) /\ w_nid w <= w_nid w' /\
-  (forall tk', nth_error (w_tasks w') k = Some tk' -> ~ unspawned tk').
+  (forall tk', nth_error (w_tasks w') k = Some tk' -> ~ unspawned tk') /\
+  (work (w_tasks w') + 1 <= work (w_tasks w))%nat.
 Proof.
-  intros [Hmail Hbase Hnd Hrun Hmid Htie]. cbn zeta.
+  intros [Hmail Hbase Hnd Hrun Hmid Htie Hlive]. cbn zeta.
   destruct (Hrun k (or_introl eq_refl)) as (tk & Hk & Hmod & Hcase).
   destruct (Forall2_nth _ _ _ _ _ (b_states _ _ _ _ Hbase) Hk) as (tk0 & Hk0 & Hts).
   assert (Hi0 : init_ok tk0).
   { pose proof (b_init _ _ _ _ Hbase) as Hall. rewrite Forall_forall in Hall. apply Hall. eapply nth_error_In; exact Hk0. }
   (* the common shape of both cases *)
   assert (Hgen : exists L Sx, Forall frag_step Sx /\ expected tk0 = L ++ exp_run t Sx /\ t_fin tk = false /\
-            t_mod tk = t_mod tk0 /\ t_start tk = t_start tk0 /\
+            t_mod tk = t_mod tk0 /\ t_start tk = t_start tk0 /\ (length Sx + 1 <= wt tk)%nat /\
             run_steps t m k (t_steps tk) (t_cur tk) (t_iv tk) (drv_of w m) (w_nid w) (t_log tk) (w_mail w) =
             run_steps t m k Sx None None (drv_of w m) (w_nid w) L []).
   { destruct Hcase as [(Hun & Hst)|(s & Hbl & Hdl)].
     - pose proof (tstate_unspawned _ _ Hts Hun) as ->. destruct Hi0 as (I1 & I2 & I3 & I4 & I5 & I6).
       exists [], (t_steps tk0). rewrite Hmail, I2, I3, I4. repeat split; try assumption; try reflexivity.
-      unfold expected. rewrite Hst. reflexivity.
+      + unfold expected. rewrite Hst. reflexivity.
+      + unfold wt. rewrite I2, I5. lia.
     - destruct (tstate_blocked _ _ _ Hts Hi0 Hbl) as (st & rest & H1 & H2 & H3 & H4 & H5 & H6 & H7 & H8).
       exists (t_log tk ++ [t]), rest. rewrite Hmail, H3, H5, H6. repeat split; try assumption.
       + rewrite H8, Hdl, <- app_assoc. reflexivity.
+      + unfold wt. rewrite H3. cbn [length]. lia.
       + apply run_steps_woken. lia. }
-  destruct Hgen as (L & Sx & HS & Hexp & Hfin & Hm0 & Hs0 & Hrs).
+  destruct Hgen as (L & Sx & HS & Hexp & Hfin & Hm0 & Hs0 & Hwt & Hrs).
   rewrite (run_steps_frag t m k Sx HS) in Hrs. destruct (frag_run t (w_nid w) Sx) as [[o b] n] eqn:Efr.
   destruct (poll_task_eq true t m k w tk _ _ _ _ _ _ _ _ Hk Hfin Hrs) as (Hsw & Hfes & Hnow & Hdr & Hoth & Htasks & Hnid & Hown & Hml).
   assert (Hnn : w_nid w <= n).
@@ -245,11 +299,22 @@ Proof.
       eapply ps_mid; eassumption.
     + rewrite Htasks, Hown, Hnid, Hdr. cbn [sent_by].
       eapply ps_tie; eassumption.
+    + rewrite Hdr. eapply ps_live; eassumption.
   - intros k' Hne. rewrite Htasks. apply nth_set_nth_other. intros E; apply Hne; symmetry; exact E.
   - rewrite Htasks. apply length_set_nth.
   - rewrite Hnid. exact Hnn.
   - intros tk1 H1. rewrite Htasks, (nth_set_nth_same _ _ _ _ Hk) in H1. injection H1 as <-.
     eapply ps_spawned; eassumption.
+  - rewrite Htasks.
+    match goal with |- (work (set_nth k ?T _) + 1 <= _)%nat => set (tk' := T) end.
+    pose proof (work_set_nth (w_tasks w) k tk tk' Hk) as Hw.
+    assert (Hns : ~ unspawned tk') by (eapply ps_spawned; eassumption).
+    assert (Hwt' : (wt tk' <= length Sx)%nat).
+    { pose proof (frag_run_len t Sx (w_nid w)) as Hl. rewrite Efr in Hl. cbn [fst snd] in Hl.
+      unfold wt. unfold unspawned in Hns. cbn [tk' t_steps t_cur t_fin] in *.
+      destruct (fr_cur b); [lia|]. destruct (match fr_steps b with [] => true | _ :: _ => false end); [lia|].
+      exfalso. apply Hns. split; reflexivity. }
+    lia.
 Qed.
 
 (* the executor's run over the whole queue *)
@@ -259,23 +324,24 @@ Lemma run_queue_frag ts0 t m : forall fuel q w, (length q <= fuel)%nat -> MInv t
   (forall m', (m' =? 0) <> (m =? 0) -> drv_of w' m' = drv_of w m') /\
   (forall k', ~ In k' q -> nth_error (w_tasks w') k' = nth_error (w_tasks w) k') /\
   length (w_tasks w') = length (w_tasks w) /\ w_nid w <= w_nid w' /\
-  (forall k tk', In k q -> nth_error (w_tasks w') k = Some tk' -> ~ unspawned tk').
+  (forall k tk', In k q -> nth_error (w_tasks w') k = Some tk' -> ~ unspawned tk') /\
+  (work (w_tasks w') + length q <= work (w_tasks w))%nat.
 Proof.
   induction fuel as [|f IH]; intros q w Hlen Hm; cbn zeta.
   - destruct q; [|cbn [length] in Hlen; lia]. cbn [run_queue].
-    refine (conj Hm (conj eq_refl (conj eq_refl (conj (fun _ _ => eq_refl) (conj (fun _ _ => eq_refl) (conj eq_refl (conj _ _))))))); [lia|intros k tk' []].
+    refine (conj Hm (conj eq_refl (conj eq_refl (conj (fun _ _ => eq_refl) (conj (fun _ _ => eq_refl) (conj eq_refl (conj _ (conj _ _)))))))); [lia|intros k tk' []|cbn [length]; lia].
   - destruct q as [|k r].
     { cbn [run_queue].
-      refine (conj Hm (conj eq_refl (conj eq_refl (conj (fun _ _ => eq_refl) (conj (fun _ _ => eq_refl) (conj eq_refl (conj _ _))))))); [lia|intros k tk' []]. }
+      refine (conj Hm (conj eq_refl (conj eq_refl (conj (fun _ _ => eq_refl) (conj (fun _ _ => eq_refl) (conj eq_refl (conj _ (conj _ _)))))))); [lia|intros k tk' []|cbn [length]; lia]. }
     cbn [run_queue].
-    destruct (poll_task_minv ts0 t m k r w Hm) as (Hsw & Hm' & H1 & H2 & H3 & H4 & H5 & H6 & H7).
+    destruct (poll_task_minv ts0 t m k r w Hm) as (Hsw & Hm' & H1 & H2 & H3 & H4 & H5 & H6 & H7 & H8).
     destruct (poll_task true t m k w) as [w1 sw]. cbn [fst snd] in *. subst sw.
     rewrite (no_receivers ts0 (w_tasks w1) m (w_mail w1) (b_states _ _ _ _ (mi_base _ _ _ _ _ Hm')) (b_init _ _ _ _ (mi_base _ _ _ _ _ Hm'))).
     unfold enqueue. cbn [filter]. rewrite app_nil_r.
-    cbn [length] in Hlen. destruct (IH r w1 ltac:(lia) Hm') as (G0 & G1 & G2 & G3 & G4 & G5 & G6 & G7).
+    cbn [length] in Hlen. destruct (IH r w1 ltac:(lia) Hm') as (G0 & G1 & G2 & G3 & G4 & G5 & G6 & G7 & G8).
     split; [exact G0|]. split; [rewrite G1; exact H1|]. split; [rewrite G2; exact H2|].
     split; [intros m' Hne; rewrite (G3 m' Hne); exact (H3 m' Hne)|].
-    split; [|split; [rewrite G5; exact H5|split; [lia|]]].
+    split; [|split; [rewrite G5; exact H5|split; [lia|split; [|cbn [length]; lia]]]].
     + intros k' Hn. rewrite G4; [apply H4|]; intros E; apply Hn; [left; symmetry; exact E|right; exact E].
     + intros k' tk' [<-|Hin] Hk'; [|exact (G7 k' tk' Hin Hk')].
       assert (Hkr : ~ In k r) by (pose proof (mi_nodup _ _ _ _ _ Hm) as Hnd; inversion Hnd; assumption).
